@@ -37,6 +37,10 @@ CASES = [
     ("m-c10-dict-none", "C10", "fire", "xdis/unmarshal.py", "            if key is _NULL:\n                break", "            if key is _NULL or key is None:\n                break", "dict-terminates"),
     ("m-c10-smalltuple-noinsert", "C10", "fire", "xdis/unmarshal.py", "            tuplesize -= 1\n            pass\n        return self.r_ref_insert(ret, i)", "            tuplesize -= 1\n            pass\n        return ret", "code=')':ref"),
     ("m-c10-ref-singleton", "C10", "fire", "xdis/unmarshal.py", "    def t_Ellipsis(self, save_ref, bytes_for_s=False):\n        return Ellipsis", "    def t_Ellipsis(self, save_ref, bytes_for_s=False):\n        return self.r_ref(Ellipsis, save_ref)", "code='.':ref"),
+    ("s-c10-list-comprehension", "C10", "silent", "xdis/unmarshal.py", "        ret = self.r_ref(list(), save_ref)\n        while n > 0:\n            ret += (self.r_object(bytes_for_s=bytes_for_s),)\n            n -= 1\n        return ret",
+     "        ret = self.r_ref(list(), save_ref)\n        ret.extend([self.r_object(bytes_for_s=bytes_for_s) for _ in range(n)])\n        return ret", ""),
+    ("m-c10-child-bfs", "C10", "fire", "xdis/unmarshal.py", "        while setsize > 0:\n            ret += (self.r_object(bytes_for_s=bytes_for_s),)\n            setsize -= 1\n        return self.r_ref_insert(set(ret), i)",
+     "        while setsize > 0:\n            ret += (self.r_object(bytes_for_s=self.bytes_for_s),)\n            setsize -= 1\n        return self.r_ref_insert(set(ret), i)", "child-bytes_for_s"),
     ("s-c10-rename-local", "C10", "silent", "xdis/unmarshal.py", "        setsize = unpack(\"<i\", self.fp.read(4))[0]\n        ret, i = self.r_ref_reserve(tuple(), save_ref)\n        while setsize > 0:\n            ret += (self.r_object(bytes_for_s=bytes_for_s),)\n            setsize -= 1\n        return self.r_ref_insert(frozenset(ret), i)",
      "        count = unpack(\"<i\", self.fp.read(4))[0]\n        items, slot = self.r_ref_reserve(tuple(), save_ref)\n        while count > 0:\n            items += (self.r_object(bytes_for_s=bytes_for_s),)\n            count -= 1\n        return self.r_ref_insert(frozenset(items), slot)", ""),
     # ---------------- C02 / C03 / C04 decoder
